@@ -30,10 +30,11 @@ import (
 // ---------------------------------------------------------------------------------------------
 
 type scriptConn struct {
-	data []byte
-	cuts []int
-	used int
-	out  []byte
+	data       []byte
+	cuts       []int
+	used       int
+	out        []byte
+	firstWrite int // bytes consumed when the first Write happened (-1: nothing written)
 }
 
 func (c *scriptConn) Read(p []byte) (int, error) {
@@ -62,7 +63,13 @@ func (c *scriptConn) Read(p []byte) (int, error) {
 	c.used += k
 	return k, nil
 }
-func (c *scriptConn) Write(p []byte) (int, error)        { c.out = append(c.out, p...); return len(p), nil }
+func (c *scriptConn) Write(p []byte) (int, error) {
+	if c.firstWrite < 0 {
+		c.firstWrite = c.used
+	}
+	c.out = append(c.out, p...)
+	return len(p), nil
+}
 func (c *scriptConn) Close() error                       { return nil }
 func (c *scriptConn) LocalAddr() net.Addr                { return &net.TCPAddr{IP: net.IPv4(127, 0, 0, 1), Port: 1080} }
 func (c *scriptConn) RemoteAddr() net.Addr               { return &net.TCPAddr{IP: net.IPv4(127, 0, 0, 1), Port: 40000} }
@@ -71,7 +78,7 @@ func (c *scriptConn) SetReadDeadline(t time.Time) error  { return nil }
 func (c *scriptConn) SetWriteDeadline(t time.Time) error { return nil }
 
 func newConn(s []byte, cuts []int) *scriptConn {
-	return &scriptConn{data: append([]byte(nil), s...), cuts: append([]int(nil), cuts...)}
+	return &scriptConn{data: append([]byte(nil), s...), cuts: append([]int(nil), cuts...), firstWrite: -1}
 }
 
 // ---------------------------------------------------------------------------------------------
@@ -129,6 +136,8 @@ type expT struct {
 	hsOk      bool   // greeting (+ sub-negotiation) stage accepted
 	hsUsed    int    // bytes belonging to that stage (exact on accept, upper bound on reject)
 	hsIncompl bool
+	gIncompl  bool
+	gUsed     int // length of the greeting message itself (what may have been consumed when the method selection is written)
 }
 
 func refUserPass(s []byte, user, pass []byte) (incompl bool, badver bool, ok bool, n int) {
@@ -153,9 +162,10 @@ func refUserPass(s []byte, user, pass []byte) (incompl bool, badver bool, ok boo
 func expectedSession(s []byte, want byte, cmdOK func(byte) bool, auth bool, user, pass []byte) expT {
 	e := expT{reply: -1}
 	if len(s) < 2 {
-		e.incompl, e.hsIncompl = true, true
+		e.incompl, e.hsIncompl, e.gIncompl = true, true, true
 		return e
 	}
+	e.gUsed = 2
 	if s[0] != 5 {
 		e.used, e.hsUsed = 2, 2
 		return e
@@ -165,8 +175,9 @@ func expectedSession(s []byte, want byte, cmdOK func(byte) bool, auth bool, user
 		e.prefix, e.altEmpty, e.used, e.hsUsed = []byte{5, 0xFF}, true, 2, 2
 		return e
 	}
+	e.gUsed = 2 + nm
 	if len(s) < 2+nm {
-		e.incompl, e.hsIncompl = true, true
+		e.incompl, e.hsIncompl, e.gIncompl = true, true, true
 		return e
 	}
 	pos := 2 + nm
@@ -335,13 +346,14 @@ func listenerCmdOK(c byte) bool { return c == 1 || c == 3 }
 func adapterCmdOK(c byte) bool  { return c == 1 }
 
 type lres struct {
-	ok   bool
-	cmd  byte
-	host string
-	port int
-	out  []byte
-	used int
-	pnc  string
+	ok         bool
+	cmd        byte
+	host       string
+	port       int
+	out        []byte
+	used       int
+	firstWrite int
+	pnc        string
 }
 
 func runListener(s []byte, cuts []int) (r lres) {
@@ -350,7 +362,7 @@ func runListener(s []byte, cuts []int) (r lres) {
 		if p := recover(); p != nil {
 			r.pnc = fmt.Sprint(p)
 		}
-		r.out, r.used = c.out, c.used
+		r.out, r.used, r.firstWrite = c.out, c.used, c.firstWrite
 	}()
 	l := &socks5.Listener{}
 	res, err := l.Handshake(c)
@@ -373,7 +385,7 @@ func runAdapter(s []byte, cuts []int, auth bool, user, pass []byte) (r ares) {
 		if p := recover(); p != nil {
 			r.pnc = fmt.Sprint(p)
 		}
-		r.out, r.used = c.out, c.used
+		r.out, r.used, r.firstWrite = c.out, c.used, c.firstWrite
 	}()
 	err := adapter.VerifSocksHandshake(c, auth, string(user), string(pass))
 	r.hsUsed = c.used
@@ -403,6 +415,10 @@ func checkSession(o *caseOut, kind string, e expT, r lres) {
 	if r.pnc != "" {
 		o.Panic = r.pnc
 		o.fail(kind+"-panic", "the parser panicked: "+r.pnc)
+		return
+	}
+	if !e.gIncompl && r.firstWrite > e.gUsed {
+		o.fail(kind+"-session", fmt.Sprintf("had consumed %d bytes when it answered the %d-byte greeting", r.firstWrite, e.gUsed))
 		return
 	}
 	if r.ok != e.ok {
@@ -491,6 +507,11 @@ func runCase(raw json.RawMessage) interface{} {
 			want = 2
 		}
 		e := expectedSession(s, want, adapterCmdOK, c.Auth, user, pass)
+		if r.pnc == "" && !e.gIncompl && r.firstWrite > e.gUsed {
+			o.fail("adapter-greeting-overread", fmt.Sprintf(
+				"handleHandshake had consumed %d bytes of the connection when it answered the %d-byte greeting; the rest belongs to the next message",
+				r.firstWrite, e.gUsed))
+		}
 		if r.pnc == "" && !e.hsIncompl && r.hsUsed > e.hsUsed {
 			o.fail("adapter-greeting-overread", fmt.Sprintf(
 				"handleHandshake consumed %d bytes of the connection; the greeting%s is %d bytes long, the rest belongs to the next message",
